@@ -155,9 +155,9 @@ lazy_static! {
     static ref GIT_CONFIG_PARAMETERS_REGEX: Regex = Regex::new(
         r"(?x)
         (?:                               # Non-capturing group containing union
-            '(delta\.[a-z-]+)=([^']+)'    # Git <2.31.0 format
+            '(delta\.[a-z-]+)=([^']*)'    # Git <2.31.0 format
         |
-            '(delta\.[a-z-]+)'='([^']+)'  # Git ≥2.31.0 format
+            '(delta\.[a-z-]+)'='([^']*)'  # Git ≥2.31.0 format
         )
         "
     )
@@ -216,9 +216,15 @@ impl GitConfigGet for Option<String> {
 
 impl GitConfigGet for bool {
     fn git_config_get(key: &str, git_config: &GitConfig) -> Option<Self> {
-        match git_config.config_from_env_var.get(key).map(|s| s.as_str()) {
-            Some("true") => Some(true),
-            Some("false") => Some(false),
+        // (git's spellings of a boolean; an empty value means false)
+        match git_config
+            .config_from_env_var
+            .get(key)
+            .map(|s| s.to_ascii_lowercase())
+            .as_deref()
+        {
+            Some("true" | "yes" | "on" | "1") => Some(true),
+            Some("false" | "no" | "off" | "0" | "") => Some(false),
             _ => git_config.config.get_bool(key).ok(),
         }
     }
